@@ -612,7 +612,7 @@ def _code_lists(nbytes, small_top, lo=0):
 
 
 def _build_doc(font_model, enc_value, enc_stream, subtype, rnd, strings, size, x, y, tu_entries, ttf_subtables,
-               w_arr, w2_arr):
+               w_arr, w2_arr, tw=None):
     extra = {}
     ttf_ref = None
     if ttf_subtables is not None:
@@ -633,6 +633,8 @@ def _build_doc(font_model, enc_value, enc_stream, subtype, rnd, strings, size, x
         enc_value = W.R(24)
     f = C.type0(enc_value, W.R(20), tu_ref)
     ops = [b"BT", b"/F1 %s Tf" % size.encode(), b"%s %s Td" % (x.encode(), y.encode())]
+    if tw is not None:
+        ops.append(b"%s Tw" % tw.encode())
     for s in strings:
         if rnd.random() < 0.7:
             ops.append(b"<" + s.hex().encode() + b"> Tj")
@@ -716,6 +718,10 @@ def ident_cases(draw):
     small_top = 23000 if coll != "Adobe-Identity" else 3000
     for k in range(nstr):
         codes = draw(_code_lists(nbytes, small_top, 1 if k == 0 else 0))
+        if nbytes == 2 and draw(st.integers(0, 3)) == 0:
+            # the two-byte code <0020>: word spacing never applies to a multi-byte code (ISO 32000-1 9.3.3)
+            codes = list(codes)
+            codes.insert(draw(st.integers(0, len(codes))), 32)
         b = b"".join(c.to_bytes(nbytes, "big") for c in codes)
         if nbytes == 2 and draw(st.integers(0, 2)) == 0:
             b += bytes([draw(st.integers(0, 255))])
@@ -769,8 +775,16 @@ def ident_cases(draw):
         classes.append("enc-stream")
     size = draw(st.sampled_from(SIZES))
     x, y = draw(st.sampled_from(["0", "100", "72.5", "-20"])), draw(st.sampled_from(["0", "700", "300.25"]))
-    pdf = _build_doc(font, W.N(enc), enc_stream, subtype, rnd, strings, size, x, y, tu_entries, ttf_subtables, w_arr, w2_arr)
-    desc = {"enc": enc, "coll": coll, "src": src, "size": size, "tu": tu_entries if tu_entries is None else tu_entries[:6],
+    tw = None
+    if nbytes == 2 and draw(st.integers(0, 2)) == 0:
+        tw = draw(st.sampled_from(["5", "-3.5", "100", "0.25"]))
+        classes.append("Tw-set")
+        if 32 in all_codes:
+            classes.append("Tw-set+code-0020")
+            nt = True
+    pdf = _build_doc(font, W.N(enc), enc_stream, subtype, rnd, strings, size, x, y, tu_entries, ttf_subtables, w_arr, w2_arr,
+                     tw=tw)
+    desc = {"enc": enc, "coll": coll, "src": src, "size": size, "Tw": tw, "tu": tu_entries if tu_entries is None else tu_entries[:6],
             "W": _s(w_arr), "W2": _s(w2_arr),
             "DW": font["DW"], "DW2": font["DW2"]}
     return {"mode": "doc", "pdf": pdf, "font": font, "strings": strings, "size": size, "x": x, "y": y,
